@@ -45,6 +45,11 @@ def isDigit (c : Char) : Bool := '0' ≤ c && c ≤ '9'
 /-- a `word` token as an `ident()` -/
 def isIdent (w : List Char) : Bool := !w.isEmpty && w.all isIdentChar
 
+/-- a name that survives printing: an `ident()` that does not start with `--` (the grammar's `_` rule
+reads `--…` up to the next new-line as a comment, so such a name disappears as soon as the printed
+text contains a later line break) -/
+def validName (w : List Char) : Bool := isIdent w && !(w.take 2 == ['-', '-'])
+
 -- ------------------------------------------------------------------ numbers
 /-- little-endian decimal digits of `n` (`[0]` for 0) -/
 def digitsLE (n : Nat) : List Nat :=
@@ -451,8 +456,13 @@ def boolOfWord (w : List Char) : Option Bool :=
 
 def boolWord (b : Bool) : List Char := chars (if b then boolDisplayTrue else boolDisplayFalse)
 
-/-- `"0x" ident()*` then `hex::decode` on a whole word (BLS element bytes; the point
-validity check `blst_p?::uncompress` is not modelled: an element *is* its compressed bytes) -/
+/-- compressed sizes checked first by `Compressable::uncompress` -/
+def g1Size : Nat := 48
+def g2Size : Nat := 96
+
+/-- `"0x" ident()*` then `hex::decode` on a whole word (BLS element bytes).  Of `blst_p?::uncompress`
+only the length check is modelled (`g1Size` / `g2Size`), not the on-curve / in-group check: an element
+*is* its compressed bytes. -/
 def parseBlsWord (w : List Char) : Option Bytes :=
   match w with
   | '0' :: 'x' :: h => if h.all isIdentChar then hexDecode h else none
@@ -530,8 +540,8 @@ mutual
             | none =>
               match parseBlsWord w with
               | some b =>
-                if t = .g1 then some (.g1 b, r)
-                else if t = .g2 then some (.g2 b, r)
+                if b.length = g1Size ∧ t = .g1 then some (.g1 b, r)
+                else if b.length = g2Size ∧ t = .g2 then some (.g2 b, r)
                 else none
               | none => none
       | .hash h :: r =>
@@ -642,11 +652,11 @@ def parseConst (fuel : Nat) (toks : List Token) : Option (Const × List Token) :
       | _ => none
     | some .g1 =>
       match reqWs r with
-      | some (.word e :: r1) => (parseBlsWord e).map (fun b => (.g1 b, r1))
+      | some (.word e :: r1) => (parseBlsWord e).bind (fun b => if b.length = g1Size then some (.g1 b, r1) else none)
       | _ => none
     | some .g2 =>
       match reqWs r with
-      | some (.word e :: r1) => (parseBlsWord e).map (fun b => (.g2 b, r1))
+      | some (.word e :: r1) => (parseBlsWord e).bind (fun b => if b.length = g2Size then some (.g2 b, r1) else none)
       | _ => none
     | _ => none
   | .lpar :: r =>
@@ -984,7 +994,7 @@ end
 
 mutual
   /-- `constOk t c`: `c` is a well-formed constant of type `t` — no ml-result value (the printer
-  panics), list elements and pair components have the declared types (the printer omits the types of
+  panics), BLS elements have their compressed size, list elements and pair components have the declared types (the printer omits the types of
   nested constants, the parser reconstructs them from the outer type), data tags fit `u64`. -/
   def constOk : Ty → Const → Bool
     | .integer, .integer _ => true
@@ -993,8 +1003,8 @@ mutual
     | .unit, .unit => true
     | .bool, .bool _ => true
     | .data, .data d => dataOk d
-    | .g1, .g1 _ => true
-    | .g2, .g2 _ => true
+    | .g1, .g1 b => decide (b.length = g1Size)
+    | .g2, .g2 b => decide (b.length = g2Size)
     | .list t, .list t' xs => decide (t = t') && constsOk t xs
     | .pair a b, .pair a' b' x y => decide (a = a') && decide (b = b') && constOk a x && constOk b y
     | _, _ => false
@@ -1004,10 +1014,10 @@ mutual
 end
 
 mutual
-  /-- constants well-formed, `constr` tags fit `usize`, names are identifiers of the grammar -/
+  /-- constants well-formed, `constr` tags fit `usize`, names are identifiers of the grammar (not starting with `--`) -/
   def termOk : Term Name → Bool
-    | .var n => isIdent n.text.toList
-    | .lam n b => isIdent n.text.toList && termOk b
+    | .var n => validName n.text.toList
+    | .lam n b => validName n.text.toList && termOk b
     | .app f a => termOk f && termOk a
     | .delay t => termOk t
     | .force t => termOk t
